@@ -133,7 +133,7 @@ def o_twins(ctx, mod, shards):
 
 
 def _mode(shard):
-    return " ".join(shard.get("pyflags", []) + (["vendored-copy"] if shard.get("vendored") else []))
+    return " ".join(shard.get("pyflags", []) + (["vendored-copy"] if shard.get("vendored") else []) + (["fault-storm"] if shard.get("storm") else []))
 
 
 def load_known(prop):
